@@ -45,13 +45,10 @@ def specTok (st : State) (n m r : Nat) : String :=
 
 /-- single exponentiation, `bits` already resolved. -/
 def runPow (st : State) (n m ne base e bits : Nat) : String :=
-  let p := st.params
   let x := opNew st base
   let el := toLimbs ne e
   if Pow.indexPanics bits [el] then "panic" else
-  let z := match st.rep with
-    | .boxed => Pow.bPowMont x el bits p.modulus p.one p.modNegInv
-    | _ => Pow.powMont x el bits p.modulus p.one p.modNegInv
+  let z := Pow.opPow st x el bits
   outTok st z ++ " ;; " ++ specTok st n m (Pow.modPow m (base % m) (e % 2 ^ bits))
 
 def multiSpecFast (m bits : Nat) : List (Nat Ã— Nat) â†’ Nat
@@ -73,13 +70,10 @@ def runMulti (st : State) (form : String) (n m ne bits : Nat) (bes : List (Nat Ã
   | _, _ => none
 
 def runLincomb (st : State) (n m : Nat) (abs : List (Nat Ã— Nat)) : String :=
-  let p := st.params
   let l := abs.map fun ab => (opNew st ab.1, opNew st ab.2)
   -- MontyForm / BoxedMontyForm::lincomb_vartime: documented panic on empty input
   if abs.isEmpty && st.rep != .const then "panic" else
-  let z := match st.rep with
-    | .boxed => Lincomb.lincombBoxed l p.modulus p.modNegInv p.modLeadingZeros
-    | _ => Lincomb.lincombFixed l p.modulus p.modNegInv p.modLeadingZeros
+  let z := Lincomb.opLincomb st l
   outTok st z ++ " ;; " ++ specTok st n m (Lincomb.sumSpec m (abs.map fun ab => (ab.1 % m, ab.2 % m)))
 
 end C09drv
